@@ -153,9 +153,8 @@ def model_check(chk, tier):
                     % (n, m, v, ops))
 
 
-def check(chk, tier, r, schedules):
+def prepare(chk, tier, r, schedules):
     """schedules: lists of chains (one per item) from SelectionGen / random; those with N*M items for a supported shape are used."""
-    model_check(chk, tier)
     shapes = {1: [(1, 1)], 2: [(1, 2), (2, 1)], 3: [(1, 3), (3, 1)], 4: [(2, 2)], 6: [(2, 3), (3, 2)]}
     recs, raised = [], 0
     cap = 300 if tier == "quick" else 6000
@@ -172,6 +171,12 @@ def check(chk, tier, r, schedules):
                                      % (n, m, json.dumps(ch)[:200], ops, why))
             else:
                 recs.append(rec)
+    return recs, raised
+
+
+def finish(chk, tier, recs, raised):
+    """Model-check and validate the recorded runs (TLC sub-processes only: may run in a worker thread)."""
+    model_check(chk, tier)
     shards = 8
     from concurrent.futures import ThreadPoolExecutor
     parts = [list(range(len(recs)))[k::shards] for k in range(shards)]
@@ -188,3 +193,8 @@ def check(chk, tier, r, schedules):
                 if len(chk.drift) < 8:
                     chk.drift.append("WeightedBipartiteMatcher run not explained by Matcher.tla: %s" % json.dumps(recs[j])[:600])
     chk.extra["matcher_runs_explained_by_Matcher_tla"] = "%d of %d (%d raised or hung)" % (len(recs) - unexplained, len(recs), raised)
+
+
+def check(chk, tier, r, schedules):
+    recs, raised = prepare(chk, tier, r, schedules)
+    finish(chk, tier, recs, raised)
